@@ -3,6 +3,7 @@ package c15
 import (
 	"encoding/json"
 	"fmt"
+	"io"
 	"os"
 	"path/filepath"
 	"regexp"
@@ -212,4 +213,38 @@ func truncMiddle(s string, head, tail int) string {
 		return s
 	}
 	return s[:head] + "\n\t[...]\n" + s[len(s)-tail:]
+}
+
+// endGuard watches what a server does after its socket reported a permanent,
+// non-close read error (the end of the script / a closed channel: io.EOF, as
+// gorilla/websocket keeps returning its read error on every further read). A
+// correct read loop stops reading. readsAfterEndLimit further reads are a
+// verdict by count, not by time; the guard then cancels the connection's
+// context so that a loop which at least honours that ends, and parks a loop
+// that does not after 10000 reads (it is then found parked).
+type endGuard struct {
+	postEnd int64
+	cancel  func()
+}
+
+const readsAfterEndLimit = 3
+
+func (g *endGuard) ended() error {
+	n := atomic.AddInt64(&g.postEnd, 1)
+	if n > readsAfterEndLimit && g.cancel != nil {
+		g.cancel()
+	}
+	if n > 10000 {
+		select {}
+	}
+	return io.EOF
+}
+
+// excessReads is the number of reads after the permanent error when it is
+// beyond the limit (the first read is the one that reports the error).
+func (g *endGuard) excessReads() int64 {
+	if n := atomic.LoadInt64(&g.postEnd); n > readsAfterEndLimit {
+		return n
+	}
+	return 0
 }
